@@ -97,3 +97,12 @@ def parse_file(
     if parser is None:
         parser = CParser()
     return parser.parse(text, filename)
+
+
+# Verification hooks (see _verif.py): inert unless PYCPARSER_VERIF=1.
+import os as _os
+
+if _os.environ.get("PYCPARSER_VERIF") == "1":
+    from . import _verif
+
+    _verif.install()
